@@ -1844,7 +1844,8 @@ class C11(fw.Prop):
             "values directly or inside tuple / option / sum values with bodies of their own to depth 2, registries cut from "
             "the universe) and HUGRs of random builder programs of harness/progs.py (hierarchy, control flow, calls, order "
             "edges, function-valued constants; std and verif.ext registries: complete, empty, std only, partial), both "
-            "with holes in the node table (delete_node) and reused indices; a respell stream: a unit sum spelled "
+            "with holes in the node table (delete_node) and reused indices, plus 60 (thorough 900) of the small HUGRs of the "
+            "older streams rebuilt as whole HUGRs; a respell stream: a unit sum spelled "
             "compactly and as a general sum of empty rows (equal under ==, different on the wire), sizes 0-3, under every "
             "container, placed at every pair of positions a result-sharing implementation would merge (function-type "
             "input/output, two inputs, sum variants, row elements, arguments of an opaque type, sequence elements, "
@@ -1993,6 +1994,15 @@ class C11(fw.Prop):
         cases += list(whole_stream(rng, tier))
         # rows equal under `==` but spelled differently on the wire (seeded C11-f)
         cases += list(respell_stream(rng, tier))
+        # the small HUGRs of the older streams (std sweep, random, sibling, path) once more as whole HUGRs: the same
+        # nodes, chained by value and order links, compared in Coq as dump / document / port types
+        small = [c for c in cases if c["kind"] == "hugr" and c["via"] == "loaded"]
+        for c in rng.sample(small, min(len(small), 60 if tier == "quick" else 900)):
+            twin = {"kind": "whole", "via": "loaded", "reg": c["reg"], "mode": c.get("mode", "twin"), "twin_of": c.get("mode", "?"),
+                    "body": {"nodes": c["nodes"], "order": rng.random() < 0.5}}
+            if rng.random() < 0.3:
+                twin["holes"] = [rng.randrange(50)]
+            cases.append(twin)
         return cases
 
     def std_sweep(self):
@@ -2296,7 +2306,7 @@ class C11(fw.Prop):
 
     def shrink(self, case):
         # the labels of the path stream describe the generated expression, not its shrunk variants
-        for c in self._shrink({k: v for k, v in case.items() if k not in ("path", "where", "respell")}):
+        for c in self._shrink({k: v for k, v in case.items() if k not in ("path", "where", "respell", "twin_of")}):
             yield c
 
     def _shrink(self, case):
@@ -2385,7 +2395,7 @@ class C11(fw.Prop):
                 pairs = whole_pairs(o)
                 w = d.setdefault("whole", {"source": {}, "nodes": 0, "holes": 0, "function_value_depth": {}, "links": 0,
                                            "order_links": 0, "resolved_nested": 0, "resolved_top": 0, "with_metadata": 0})
-                src = "builder-program" if "seed" in c else "generated-body"
+                src = "builder-program" if "seed" in c else "small-hugr-of-older-streams" if "twin_of" in c else "generated-body"
                 w["source"][src] = w["source"].get(src, 0) + 1
                 w["nodes"] += len(o["h0"]["nodes"])
                 w["holes"] += max([n["idx"] for n in o["h0"]["nodes"]] + [-1]) + 1 - len(o["h0"]["nodes"])
